@@ -229,7 +229,7 @@ func runR123(c *Ctx) {
 
 func init() {
 	register(&Rule{ID: "R126", Name: "FLOAT-ZERO-SIGN", Floor: 1,
-		Text: "in internal/ryu (the float renderer) the special values are recognised on the bit pattern: every function that appends text for a float consults the sign bit (a value derived from math.Float64bits(f) >> k, or math.Signbit) and no float is compared with the constant 0 by == or != to choose the text - such a comparison is true for both zeros, so the branch it guards writes `0` for -0 and the text no longer parses back to the same float64. A comparison with 0 is accepted only when the region it guards branches on the sign",
+		Text: "in internal/ryu (the float renderer) the special values are recognised on the bit pattern: every function that appends text for a float consults the sign bit (a value derived from math.Float64bits(f) >> k, or math.Signbit) and no float is compared with the constant 0 by == or != to choose the text - such a comparison is true for both zeros, so the branch it guards writes `0` for -0 and the text no longer parses back to the same float64. A comparison with 0 is accepted only when the region it guards branches on the sign; (b) in internal/fcolumn a float parameter compared with 0 is not stored into the column's storage on the non-zero side only (zero-initialised storage holds +0, so -0 would lose its sign)",
 		Run:  runR126})
 	register(&Rule{ID: "R127", Name: "BYTE-DELIMITER", Floor: 10,
 		Text: "the CSV scanner treats its input as bytes: in internal/fastcsv and internal/io no UTF-8 aware search or trim of the standard library (bytes/strings IndexAny, LastIndexAny, ContainsAny, IndexRune, ContainsRune, IndexFunc, Trim, TrimLeft, TrimRight, Fields, FieldsFunc) is given a character set, rune or predicate that is not a compile-time constant of ASCII characters. A delimiter byte >= 0x80 converted to a string is an invalid UTF-8 sequence; IndexAny then matches every byte that is not part of a valid sequence, so where a field ends depends on where the reads cut multi-byte characters",
@@ -331,6 +331,63 @@ func runR126(c *Ctx) {
 	}
 	if n == 0 {
 		c.undecided("internal/ryu|entry points", "-", "no function with a float parameter found")
+	}
+	// (b) the float column: a float parameter that is compared with the constant 0 and stored into the column's
+	// storage only on the non-zero side is lost when it is -0 (zero-initialised storage holds +0)
+	for _, fn := range p.FuncsIn("internal/fcolumn") {
+		for _, prm := range fn.Params {
+			if !isFloatType(prm.Type()) {
+				continue
+			}
+			for _, r := range *prm.Referrers() {
+				b, ok := r.(*ssa.BinOp)
+				if !ok || b.Op != token.EQL && b.Op != token.NEQ {
+					continue
+				}
+				other := b.Y
+				if b.Y == ssa.Value(prm) {
+					other = b.X
+				}
+				cst, ok := other.(*ssa.Const)
+				if !ok || cst.Value == nil || cst.Float64() != 0 {
+					continue
+				}
+				key := fname(fn) + "|zero " + prm.Name()
+				bad := ""
+				for _, r2 := range *b.Referrers() {
+					iff, ok := r2.(*ssa.If)
+					if !ok {
+						continue
+					}
+					nonZero := 0
+					if b.Op == token.EQL {
+						nonZero = 1
+					}
+					stores, guarded := 0, 0
+					for _, r3 := range *prm.Referrers() {
+						st, ok := r3.(*ssa.Store)
+						if !ok || st.Val != ssa.Value(prm) {
+							continue
+						}
+						if _, isElem := st.Addr.(*ssa.IndexAddr); !isElem {
+							continue
+						}
+						stores++
+						if edgeDominates(iff.Block(), nonZero, st.Block()) {
+							guarded++
+						}
+					}
+					if stores > 0 && stores == guarded {
+						bad = p.instrPos(b)
+					}
+				}
+				if bad != "" {
+					c.bad(key, bad, fmt.Sprintf("the float %s is stored into the column only when it differs from 0: -0 compares equal to 0, the store is skipped and the zero-initialised storage holds +0 - a constant column of negative zero loses its sign (ToCSV writes 0 for -0)", prm.Name()))
+				} else {
+					c.ok(key, p.instrPos(b), "the comparison with 0 does not decide whether the value is stored")
+				}
+			}
+		}
 	}
 }
 
